@@ -119,7 +119,8 @@ theorem decodeMany_append (cfg : Cfg) (st : Style) (a b : List (List Char)) {st1
   | nil =>
     simp only [decodeMany, Prod.mk.injEq, Except.ok.injEq] at ha
     obtain ⟨rfl, rfl⟩ := ha
-    cases h : (decodeMany cfg st b).2 <;> simp [Except.map, h]
+    cases hb : decodeMany cfg st b with
+    | mk s res => cases res <;> simp [Except.map, hb]
   | cons l r ih =>
     simp only [decodeMany, List.cons_append] at ha ⊢
     cases hl : decodeLine cfg st l with
@@ -136,7 +137,8 @@ theorem decodeMany_append (cfg : Cfg) (st : Style) (a b : List (List Char)) {st1
             simp only [hr, Except.map, Prod.mk.injEq, Except.ok.injEq] at ha
             obtain ⟨rfl, rfl⟩ := ha
             rw [ih s2 hr]
-            cases h : (decodeMany cfg s3 b).2 <;> simp [Except.map]
+            cases hb : decodeMany cfg s3 b with
+            | mk s res => cases res <;> simp [Except.map]
 
 /-- The decoder never raises (what `decodeLine_total` establishes for the repaired variant). -/
 def Total (cfg : Cfg) : Prop := ∀ st l, ∃ st' runs, decodeLine cfg st l = (st', .ok runs)
